@@ -258,6 +258,8 @@ def judge(case):
         def traced_body(*a):
             out = body(*a)
             captured["out"] = out
+            # a debug print of arguments and results (repr / str / %-formatting of traced values) publishes nothing
+            captured["printed"] = "%r %s %s" % (out, a, "{}".format(out))
             return out
         if call.get("kwargs"):
             try:
